@@ -43,7 +43,10 @@ def get_inherited(t: Type) -> Type:
 
     g_args = get_args(t)
     if len(g_args) > 0:
-        mapping = {a.__name__: v for a, v in zip(r.__parameters__, g_args)}
+        # The arguments of `t` belong to the type variables of `t`'s own class, in the order
+        # the class declares them - which need not be the order (or number) the base uses.
+        t_parameters = getattr(get_origin(t), "__parameters__", r.__parameters__)
+        mapping = {a.__name__: v for a, v in zip(t_parameters, g_args)}
 
         r_base = get_origin(r)
         assert r_base is not None, "Internal error"
